@@ -46,10 +46,26 @@ impl UvMapping {
     ///
     /// returns: Option<(usize, [f64; 3])>
     pub fn triangle(&self, point: &Point2) -> Option<(usize, [f64; 3])> {
+        // In two dimensions a triangle is a solid shape: a non-solid projection moves a point in
+        // the interior of a triangle onto its nearest edge, so the solid projection is used to
+        // find the triangle (points outside the map are still moved to the nearest one) and the
+        // barycentric coordinates of the projected point are computed directly.
         let result = self
             .tri_map
-            .project_local_point_and_get_location(point, false);
-        let (_, (t_id, loc)) = result;
-        Some((t_id as usize, loc.barycentric_coordinates().unwrap()))
+            .project_local_point_and_get_location(point, true);
+        let (prj, (t_id, _loc)) = result;
+        let tri = self.tri_map.triangle(t_id);
+
+        let v0 = tri.b - tri.a;
+        let v1 = tri.c - tri.a;
+        let v2 = prj.point - tri.a;
+        let den = v0.x * v1.y - v1.x * v0.y;
+        if den == 0.0 {
+            return None;
+        }
+        let b1 = (v2.x * v1.y - v1.x * v2.y) / den;
+        let b2 = (v0.x * v2.y - v2.x * v0.y) / den;
+
+        Some((t_id as usize, [1.0 - b1 - b2, b1, b2]))
     }
 }
